@@ -36,6 +36,7 @@ MIN = {'quick': {'distinct': 2000,
                            'cli.transitions': 20},
                  'strata': {'cli with a token-editing transformation': 8,
                             'cli with --verbose': 20,
+                            'cli with a transformation named twice': 8,
                             'cli with --transformparams': 20,
                             'command line: two readings of one sentence in '
                             'a file': 10,
@@ -519,7 +520,8 @@ def run_cli(ctx, rng, i):
                     t_['w'] = rng.choice(['Übung', 'café', 'Ärger', 'ß'])
     r = rng.random()
     cli_case(ctx, bank if r >= 0.08 else [], system, pos, sfmt, edit, senc,
-             denc, top=rng.random() < 0.3, nohead=0.08 <= r < 0.22,
+             denc, top=rng.choice([0, 0, 0, 0, 1, 1, 2]),
+             nohead=0.08 <= r < 0.22,
              existing=rng.random() < 0.4 or r < 0.08, rng=rng)
 
 
@@ -539,7 +541,7 @@ def cli_case(ctx, bank, system, pos, sfmt='export', edit=False,
     args = ['transitions', src, dest, system, '--transform'] + \
         (['punctuation_delete'] if edit else []) + \
         ([] if nohead else ['negra_mark_heads']) + ['binarize'] + \
-        (['add_topnode'] if top else []) \
+        (['add_topnode'] * int(top)) \
         + ['--src-format', sfmt, '--src-opts', 'quiet']
     # utf-8 is the documented default of both encodings: named in half of
     # the runs, left to the default in the others
@@ -583,10 +585,14 @@ def cli_case(ctx, bank, system, pos, sfmt='export', edit=False,
     bank = bank_expected
     if top:
         # a transformation that returns a new root: the oracle runs on it
-        bank = [{'sid': s_['sid'],
-                 'root': {'l': 'TOP', 'e': '--', 'c': [s_['root']]}}
-                for s_ in bank]
+        for _ in range(int(top)):
+            bank = [{'sid': s_['sid'],
+                     'root': {'l': 'TOP', 'e': '--', 'c': [s_['root']]}}
+                    for s_ in bank]
         ctx.stratum('cli with a transformation that returns a new root')
+        if int(top) > 1:
+            # every entry of --transform is applied, also a repeated one
+            ctx.stratum('cli with a transformation named twice')
     rc, out, err = common.cli(args)
     ctx.hook('cli.transitions')
     if rc != 0 and nohead:
